@@ -7,7 +7,7 @@ HOOK_COMMITS = ["57c9cc3"]
 # id -> (level category, technique, level text, level note, design ref, engine)
 CHECKS = {
  "C01": ("exploration", "bounded-exhaustive enumeration of packet values (per-field whole domains over two baselines) through the real encoder and decoder, both directions",
-         "Every Gen case (73 kinds x B0/B1 x every field's bounded domain: all 8-bit values, 16-bit boundary sets in quick / whole 16-bit domains in thorough, 32-bit boundary + byte-lane sets, every enumerant, flag subsets, all nibble pairs, counts 0..max, list-element value sweeps at the first and at the last position, MAL/IPB element values, text) x both size modes is encoded, decoded and re-encoded: typed->wire->typed equality (Debug) and wire->typed->wire byte identity on every frame the encoder produced. Decoder-independent typed values cover the hand-written reader/writer pairs (ConInfo nibbles, SmallType durations, CimMode, RaceLaps, Fuel, Vehicle, allowed cars, multi-codepage MSO; ObjectInfo in UCO / JRR / AXM with every flags byte x documented object indices x every action), every counted kind at 0, 1, 2 and the maximum number of elements in both modes, in-width multi-codepage text in all 30 text fields, and MSO with name / text / TextStart across code pages and user types.",
+         "Every Gen case (73 kinds x B0/B1 x every field's bounded domain: all 8-bit values, 16-bit boundary sets in quick / whole 16-bit domains in thorough, 32-bit boundary + byte-lane sets, every enumerant, flag subsets, all nibble pairs, counts 0..max, list-element value sweeps at the first and at the last position, MAL/IPB element values, text) x both size modes is encoded, decoded and re-encoded: typed->wire->typed equality (Debug) and wire->typed->wire byte identity on every frame the encoder produced. Decoder-independent typed values cover the hand-written reader/writer pairs (ConInfo nibbles, SmallType durations, CimMode, RaceLaps, Fuel, Vehicle, allowed cars, multi-codepage MSO; ObjectInfo in UCO / JRR / AXM with every flags byte x documented object indices x every action), every kind's packet body through readers and writers of 1..7 bytes per call, every counted kind at 0, 1, 2 and the maximum number of elements in both modes, in-width multi-codepage text in all 30 text fields, and MSO with name / text / TextStart across code pages and user types.",
          "Beyond one-field sweeps, all pairs of fields (top level and inside one list element) are explored over boundary values, every enumerant and flag bit (thorough: whole bytes); triples of top-level fields as well (narrower value sets in kinds with more than 9 fields: both ends, top bit, every enumerant and flag bit, the values the protocol documents as special); typed values of the Gen site come from decoding in-domain specification frames.", "DESIGN.md §4 C01", "E1"),
  "C02": ("model_checking",
          "bounded-exhaustive enumeration of an explicit layout model (spec table) with full conformance replay through the real codec",
@@ -21,7 +21,7 @@ CHECKS = {
          "All 65536 (size,type) headers x fills x lengths, every 1-byte mutation (all 256 values) of every reference frame of every kind, 2-byte mutations of structure bytes (all values) and of any two of the first 12 bytes (alphabet, thorough), adjacent-pair mutations over all 65536 values (inside every string-valued field in quick, everywhere in thorough), every text field filled with repeated markers / resets / double-byte units to its end (text storms; also in 600- and 1020-byte compressed frames beyond the legal text size), every ordered pair of corpus frames through one codec (no memory between calls), every history of 2-3 decodes spread over two threads, protocol tokens (car codes, track codes, version text, markers, special object indices) written over every position of every frame, every truncation, all short buffers over a 16-symbol alphabet, in both modes: no panic, need-more leaves the buffer untouched, exactly the announced frame (>= 4 bytes) is removed, verdict independent of following bytes, successor frame intact.",
          "Byte strings at mutation distance > 2 from valid frames and longer than 8 bytes over the full byte alphabet are outside the bound.", "DESIGN.md §4 C04", "E1"),
  "C10": ("model_checking", "exhaustive exploration of the code-page automaton (all state x character transitions, all table cells, all short strings) against reference tables",
-         "The encoder/decoder are automata over the current code page. All (state, character) transitions over the union repertoire of the ten Windows pages (reference tables from CPython's codecs) plus characters in no page, every single-byte table cell, agreement ratios of every double-byte table against every reference, every double-byte character with trail byte 0x5E followed by every marker, every repertoire character followed by every page switch / reserved character in every state, all strings <= 5/6 over class representatives (incl. double-byte characters with caret-like and lead-like trail bytes, '8', 'L'), all byte strings <= 4/5 over 22 decoder-relevant symbols (BOM shapes, markers, lead/trail bytes), units repeated up to 130 (quick) / 5000 (thorough) times (long strings), every unencodable astral character in front of its 16-bit alias, every ordered pair of conversions on one thread and every history of 2-3 conversions spread over two threads, and all ASCII strings <= 3 are checked.",
+         "The encoder/decoder are automata over the current code page. All (state, character) transitions over the union repertoire of the ten Windows pages (reference tables from CPython's codecs) plus characters in no page, every single-byte table cell, agreement ratios of every double-byte table against every reference, every double-byte character with trail byte 0x5E followed by every marker, every repertoire character followed by every page switch / reserved character in every state, all strings <= 5/6 over class representatives (incl. double-byte characters with caret-like and lead-like trail bytes, '8', 'L'), all byte strings <= 4/5 over 22 decoder-relevant symbols (BOM shapes, markers, lead/trail bytes), all sequences of <= 5 / 6 tokens over 18 markers and bytes, units repeated up to 5000 times and around 2^15, 2^16, 2^17 on both the decode and the encode side (long strings), every unencodable astral character in front of its 16-bit alias, every ordered pair of conversions on one thread and every history of 2-3 conversions spread over two threads, and all ASCII strings <= 3 are checked.",
          "Reference tables are CPython's cp125x/cp932/cp936/cp949/cp950; DBCS tables compared by agreement ratio; private-use mappings excluded.", "DESIGN.md §4 C10", "E1"),
  "C11": ("exploration", "bounded-exhaustive enumeration of strings (lengths 0..2N, six families) in every text field, located by specification offsets",
          "For all 30 text-bearing fields: fixed fields occupy exactly N bytes = truncate-then-NUL-pad of the encoded text; variable fields are NUL-padded multiples of 4 within the maximum; MST/MSX/MSL/MTC end in NUL for every string; decoding stops at the first NUL (also for 16 hand-built field contents - NUL first, NUL caption NUL text NUL, half a double-byte character, half a marker - on both baselines, i.e. with every other field of the packet zero and non-zero); both size modes; the SMX track field.",
@@ -30,32 +30,32 @@ CHECKS = {
          "All strings of length <= 5 (quick) / <= 7 (thorough) over 16 class representatives (caret, digits, escape letters, reserved characters, code-page letters, Latin-1/E/J characters) all strings <= 3 over every reserved character and escape letter, every character of the ten pages' repertoire right behind a caret / an escaped caret / in front of a colour code, 10 units repeated around every power of two up to 2^17 and 100 000 / 196 610 times, every history of 2-3 calls spread over two threads: unescape(escape(s)) = s, no raw reserved character, escape -> encode -> decode -> unescape = s, strip = reference stripper and idempotent.",
          "Strings longer than the bound or mixing other characters are outside the bound.", "DESIGN.md §4 C12", "E1"),
  "C13": ("exploration", "complete enumeration of the 2^32 input domain",
-         "Thorough: all 2^32 four-byte values against the InSim v9 car-id rule written independently (decode class, exact re-encode, display name, is_mod/is_builtin). Quick: all 2^24 values with byte 3 = 0 plus all alphanumeric triples x 256. Both: the same rule inside every packet that carries a car name, every composition of short reads / interrupted reads / slow writers, every history of 2-3 decodes spread over two threads.",
+         "Thorough: all 2^32 four-byte values against the InSim v9 car-id rule written independently (decode class, exact re-encode, display name, is_mod/is_builtin). Quick: all 2^24 values with byte 3 = 0 plus all alphanumeric triples x 256. Both: the same rule inside every packet that carries a car name (also with skin-like / mod-like names in every text field of that packet), every composition of short reads / interrupted reads / slow writers, every history of 2-3 decodes spread over two threads.",
          "none beyond the rule transcription", "DESIGN.md §4 C13", "E1"),
  "C14": ("exploration", "exhaustive enumeration of all enum variants and all shaped 6-byte strings",
          "All variants of enum Track (list extracted from the source at build time): wire form = code NUL-padded, decodes back, display = code, reverse/open flags from the code suffix, open => no distance, licence constant per area; 281 M shaped 6-byte strings (upper/lower case, junk in padding), every code at every offset between fill bytes, every 1-byte and alphabet 2-byte mutation of every wire form decode only if they are exactly a variant's wire form; every composition of short reads; every ordered pair of decodes on one thread and every history of 2-3 decodes spread over two threads.",
          "6-byte values outside the shaped space are not enumerated.", "DESIGN.md §4 C14", "E1"),
  "C15": ("exploration", "exhaustive enumeration of 8/16-bit wire domains and boundary sets of 32-bit fields, both directions",
-         "All 256 race-length bytes, Laps(0..=2000), Hours(0..=300); all 23 time fields: every 16-bit wire value and 32-bit boundary/byte-lane sets through the full packet codec in both modes over both baselines (meaning = w x resolution, exact re-encode), encode side floors to the resolution, out-of-range durations (up to Duration::MAX, incl. aliases of in-range values) are refused; the public conversion helpers over their complete 16- and (thorough) 32-bit wire domains; the ISI interval through handshake() of both implementations (10 intervals x 5 flag sets x 2 modes: exact on the wire or refused with nothing written).",
+         "All 256 race-length bytes, Laps(0..=2000), Hours(0..=300); all 23 time fields: every 16-bit wire value and 32-bit boundary/byte-lane sets through the full packet codec in both modes over both baselines (meaning = w x resolution, exact re-encode), encode side floors to the resolution, out-of-range durations (up to Duration::MAX, incl. aliases of in-range values) are refused; the public conversion helpers over their complete 16- and (thorough) 32-bit wire domains; every kind's packet body through Packet's public BinRead / BinWrite with readers and writers of 1..7 bytes per call; the ISI interval through handshake() of both implementations (10 intervals x 5 flag sets x 2 modes: exact on the wire or refused with nothing written).",
          "32-bit fields are covered on boundary sets, not completely.", "DESIGN.md §4 C15", "E1"),
  "C16": ("exploration", "exhaustive enumeration of strings to a length bound and of all pairs/triples of parsed versions",
          "All strings <= 6/7 over a 13-symbol alphabet (no panic, watchdog for non-termination, print-reparse equality, letter case-insensitivity), runs of 0..=200 of one symbol (incl. multi-byte numerals) in four frames, a grid of two run lengths (fraction zeros 0..=64 x revision digits 0..=24) in well-formed texts, histories of 2-3 parses spread over two threads, every non-negative finite f32 as the number (thorough: all 2^31; quick: every 2048th) printed and re-parsed, all 8-byte wire forms of LFS's shape through the VER codec, all ordered pairs of parsed versions (antisymmetry, consistency with ==, number-letter-revision rule) and all triples of a stratified subset (transitivity).",
          "A 20 s per-case watchdog stands in for a step budget.", "DESIGN.md §4 C16", "E1"),
  "C17": ("fault_enumeration", "exhaustive enumeration of truncation points, single-byte substitutions and hostile count values over generated and shipped files",
-         "Generated PTH/SMX files with all count combinations 0..=2 and NaN/extreme payloads, every count 0..=8192 (quick) / 40000 (thorough) in each count field on its own, a power-of-two and a byte-size ladder (tables of 64 KiB..32 MiB around every power of two), every composition of short reads / short writes, reader and writer at stream offsets 0..=7, histories of 2-3 parses spread over two threads, plus the shipped files: byte-exact write(parse(f)), stable re-parse; every strict prefix rejected; every single-byte substitution of files < 200 B parses without panic and within an allocation bound (counting allocator); every count field x 7 hostile values in a child process under RLIMIT_AS; from_file/from_pathbuf agree with read.",
+         "Generated PTH/SMX files with all count combinations 0..=2 and NaN/extreme payloads, every count 0..=8192 (quick) / 40000 (thorough) in each count field on its own, a power-of-two and a byte-size ladder (tables of 64 KiB..32 MiB around every power of two), a grid of four counts at once (7 x 41 x 41 x 3), objects of different sizes in one file (either side of 64 KiB), every composition of short reads / short writes, reader and writer at stream offsets 0..=7, histories of 2-3 parses spread over two threads, plus the shipped files: byte-exact write(parse(f)), stable re-parse; every strict prefix rejected; every single-byte substitution of files < 200 B parses without panic and within an allocation bound (counting allocator); every count field x 7 hostile values in a child process under RLIMIT_AS; from_file/from_pathbuf agree with read.",
          "Truncation of the 926 kB shipped SMX is exhaustive only at both ends (quadratic cost).", "DESIGN.md §4 C17", "E1"),
 }
 
 
 E2_CHECKS = {
  "C05": ("model_checking", "explicit-state search (stateright BFS) whose transition function re-executes the real connection over a scripted transport; all partitions of the stream via state merging",
-         "Every partition of every short inbound stream (all sequences <= 3/4 over 6-8 frame kinds, both modes, both implementations) into transport reads is covered by merging states on (receive buffer, spare capacity, stream position, budgets); injected transient read errors (4 kinds, budget 1-2), EOF at every point and a 30 s clock step at any suspension (tokio); sessions longer than the 6120-byte buffer, including a repeating pattern of every short frame kind shifted through every alignment with the last byte of the allocation and delivered as much at a time as the connection takes; frames whose parser wants more or less than they announce (short SMALL, MSO without NUL, over-running MCI) sharing reads with their successors; 40 sessions over real loopback TCP through connections made by the public Builder (blocking / tokio x mode x nodelay x 5 ways the peer writes); and one connection per implementation and mode that receives 2^32 + 2^20 bytes (thorough; 2^24 + 2^16 in quick) of whole frames, with reads as large as asked and of 7 bytes (library built with overflow checks). On every transition the results so far must equal the reference read loop's (one result per frame, in order, errors do not disturb successors, nothing lost after a transient error, Disconnected after EOF).",
+         "Every partition of every short inbound stream (all sequences <= 3/4 over 6-8 frame kinds, both modes, both implementations) into transport reads is covered by merging states on (receive buffer, spare capacity, stream position, budgets); injected transient read errors (4 kinds, budget 1-2), EOF at every point and a 30 s clock step at any suspension (tokio); sessions longer than the 6120-byte buffer, including a repeating pattern of every short frame kind shifted through every alignment with the last byte of the allocation and delivered as much at a time as the connection takes; frames whose parser wants more or less than they announce (short SMALL, MSO without NUL, over-running MCI) sharing reads with their successors; 40 sessions over real loopback TCP through connections made by the public Builder (blocking / tokio x mode x nodelay x 5 ways the peer writes); sessions delivered 1, 2 and 7 bytes per read for megabytes; and one connection per implementation and mode that receives 2^32 + 2^20 bytes (thorough; 2^24 + 2^16 in quick) of whole frames, with reads as large as asked and of 7 bytes (library built with overflow checks). On every transition the results so far must equal the reference read loop's (one result per frame, in order, errors do not disturb successors, nothing lost after a transient error, Disconnected after EOF).",
          "Per-frame content expectation = the real codec on that frame alone. Long sessions use boundary-relative chunk sizes, not every k.", "DESIGN.md §4 C05", "E2"),
  "C06": ("model_checking", "explicit-state search over all transport acceptance patterns of the real write path",
-         "For packet sequences over {4, 8, 12, 68, 228-byte frames}, every acceptance count at every transport write call, packets the codec refuses part-way among the writes (the refusal is reported, the wire never hears of it, the neighbours go out whole), 'not ready' (Pending for tokio, Interrupted for blocking; once, twice and 300 times in a row) and 30 s clock steps while a tokio write is suspended are explored on both implementations and modes; on every transition the accumulated bytes are a prefix of the concatenated frames and complete when write() returns Ok.",
+         "For packet sequences over {4, 8, 12, 68, 228-byte frames}, every acceptance count at every transport write call, every kind's B1 packet and the largest frames (252..1016 bytes) through a transport that takes 1 / 2 / 3 / 7 bytes per call all the way (one execution each), 105 000 writes on one connection, packets the codec refuses part-way among the writes (the refusal is reported, the wire never hears of it, the neighbours go out whole), 'not ready' (Pending for tokio, Interrupted for blocking; once, twice and 300 times in a row) and 30 s clock steps while a tokio write is suspended are explored on both implementations and modes; on every transition the accumulated bytes are a prefix of the concatenated frames and complete when write() returns Ok.",
          "Acceptance counts for frames > 12 bytes are {1,2,3,4,n/2,n-1,n}.", "DESIGN.md §4 C06", "E2"),
  "C07": ("model_checking", "explicit-state search over received-packet histories, segmentations and reply-side acceptance patterns",
-         "Every single TINY (sub-type byte x request id), every kind's frame between two keep-alives, all sequences <= 3/4 over 5 frame kinds with every partition, the reply split/delayed on the write side, and sequences over {keep-alive, VER 9, VER 8, SMALL} with the version gate on, the caller's own reads and writes dropped around a keep-alive (the packet written being a SMALL, an ISI, a reply-shaped TINY, every TINY sub-type incl. Close, every kind's B1 packet), a write or handshake the codec refuses part-way before the reads, and any number of 30 s clock steps while a reply waits for a transport that is not ready: outbound bytes are exactly one pong per keep-alive handed over, accepted before the hand-over, and nothing for anything else.",
+         "Every single TINY (sub-type byte x request id), every kind's frame between two keep-alives, all sequences <= 3/4 over 5 frame kinds with every partition, the reply split/delayed on the write side, and sequences over {keep-alive, VER 9, VER 8, SMALL} with the version gate on, the caller's own reads and writes dropped around a keep-alive (the packet written being a SMALL, an ISI, a reply-shaped TINY, every TINY sub-type incl. Close, every kind's B1 packet), a write or handshake the codec refuses part-way before the reads, 70 000 keep-alives on one connection, and any number of 30 s clock steps while a reply waits for a transport that is not ready: outbound bytes are exactly one pong per keep-alive handed over, accepted before the hand-over, and nothing for anything else.",
          "quick tier samples request ids for non-zero sub-types (all 256 for sub-type 0); thorough covers all.", "DESIGN.md §4 C07", "E2"),
  "C09": ("model_checking", "explicit-state search over version values x gate setting x position x implementation",
          "All 256 InSim version values x verify on/off x {blocking, tokio} x 4 positions x 2 modes, whole and byte-by-byte delivery, pairs of VER packets (the gate applies to every one, not the first), the gate as set through the public builder (tcp and udp), a handshake (default and all-fields-changed ISI) or one written packet of every kind in front of the reads, VER-shaped frames announcing 24, 28 and 80 bytes delivered byte by byte, 300 VERs on one connection, every request id a VER can carry x 5 handshakes (none, ISI request id 0 / 1 / 7 / 255), plus every other kind with the gate on: delivered iff (gate off or version 9), otherwise IncompatibleVersion(v); later packets unaffected.",
@@ -75,7 +75,7 @@ CHECKS["C18"] = ("model_checking", "explicit-state search over all reachable sta
          "All builder states reachable with a 34-setter (quick) / 47-setter (thorough) alphabet - each flag helper on/off, wholesale flag replacement (incl. unnamed bits), prefix / interval / name / password / request id present or absent, tcp, udp without a local address and with 3 / 6 (remote, local) address pairs across both IP families, compressed, uncompressed, relay - are explored; on every transition isi() must not panic and must equal the reference builder's ISI (documented defaults, later calls override earlier ones). 480 connects (tcp / udp without / with local address - IPv4, IPv6 wildcard towards an IPv4 peer, IPv6 loopback - x mode x blocking/tokio x 12 ISI configurations x mode chosen first / last) check that the peer receives exactly the encoded ISI and nothing else.",
          "Setter arguments are limited to 2-3 representatives each.", "DESIGN.md §4 C18", "E2")
 CHECKS["C20"] = ("model_checking", "exhaustive enumeration of message schedules (partitions, interleavings, read sizes) executed on real loopback WebSocket connections",
-         "Adaptor level: every partition of an 8/12-byte stream into binary messages x 8 caller read sizes, text / ping / empty-binary messages inserted at every boundary, 300 non-binary messages in a row, messages larger than the 1020-byte adaptor buffer (up to 200 000 bytes): bytes read = concatenated binary payloads, close = 0-byte read. Connection level: frame sequences x message partitions give exactly the TCP reference results and Disconnected on close; every kind's packet (both modes, up to the largest counted frames), sequences of writes and writes against a peer that does not read until the writer stalls leave as exactly one binary message per packet holding its frame; while the application's writes are blocked, a packet behind {nothing, a ping, a text, a pong, an empty binary message, three pings, ping + text + ping} is still delivered.",
+         "Adaptor level: every partition of an 8/12-byte stream into binary messages x 8 caller read sizes, text / ping / empty-binary messages inserted at every boundary, 300 non-binary messages in a row, messages larger than the 1020-byte adaptor buffer (up to 200 000 bytes), 70 000 messages on one connection: bytes read = concatenated binary payloads, close = 0-byte read. Connection level: frame sequences x message partitions give exactly the TCP reference results and Disconnected on close; every kind's packet (both modes, up to the largest counted frames), sequences of writes and writes against a peer that does not read until the writer stalls leave as exactly one binary message per packet holding its frame; while the application's writes are blocked, a packet behind {nothing, a ping, a text, a pong, an empty binary message, three pings, ping + text + ping} is still delivered.",
          "Loopback TCP with a tungstenite server inside the harness; 2 s watchdog on every await.", "DESIGN.md §4 C20", "E2")
 
 NOT_BUILT = {}
